@@ -27,8 +27,13 @@ TRUSTED_BASE = [
 
 
 def sh(cmd, cwd=None, env=None, timeout=None, stdin=None, stdout=subprocess.PIPE):
-    p = subprocess.run(cmd, cwd=cwd, env=env, timeout=timeout, stdin=stdin, stdout=stdout,
-                       stderr=subprocess.STDOUT, text=True)
+    try:
+        p = subprocess.run(cmd, cwd=cwd, env=env, timeout=timeout, stdin=stdin, stdout=stdout,
+                           stderr=subprocess.STDOUT, text=True)
+    except subprocess.TimeoutExpired as e:
+        # a hung harness or driver (e.g. a changed avo that makes a traversal loop for ever) is an obligation failure, not a hang
+        o = e.stdout if isinstance(e.stdout, str) else (e.stdout or b"").decode(errors="replace")
+        return 124, (o or "") + f"\nTIMEOUT after {timeout}s: {cmd if isinstance(cmd, str) else ' '.join(map(str, cmd[:4]))} ..."
     return p.returncode, p.stdout if p.stdout is not None else ""
 
 
@@ -142,7 +147,16 @@ class Ctx:
                 os.remove(out)
         return out
 
-    def avoh(self, args, timeout=3600, cwd=None):
+    def default_timeout(self):
+        """wall-clock limit of one harness / driver run: a quick check must never hang for an hour"""
+        return 900 if self.tier == "quick" else 7200
+
+    def cap_timeout(self, timeout):
+        timeout = timeout or self.default_timeout()
+        return min(timeout, self.default_timeout()) if self.tier == "quick" else timeout
+
+    def avoh(self, args, timeout=None, cwd=None):
+        timeout = self.cap_timeout(timeout)
         rc, out = sh([self.avoh_bin] + args, cwd=cwd or self.dir, env=GOENV, timeout=timeout)
         return rc, out
 
@@ -281,16 +295,21 @@ class Ctx:
         return rc == 0
 
     # --------------------------------------------------------- differential
-    def run_driver(self, ops_path, model_path, timeout=3600, driver=None):
+    def run_driver(self, ops_path, model_path, timeout=None, driver=None):
         driver = driver or ("drv_" + self.prop.lower())
+        timeout = self.cap_timeout(timeout)
         with open(ops_path) as fin, open(model_path, "w") as fout:
-            p = subprocess.run([driver_path(driver)], stdin=fin, stdout=fout, stderr=subprocess.PIPE, timeout=timeout)
+            try:
+                p = subprocess.run([driver_path(driver)], stdin=fin, stdout=fout, stderr=subprocess.PIPE, timeout=timeout)
+            except subprocess.TimeoutExpired:
+                self.obligation_failures.append((driver, f"driver timed out after {timeout}s"))
+                return False
         if p.returncode != 0:
             self.obligation_failures.append((driver, (p.stderr or b"").decode()[-2000:]))
             return False
         return True
 
-    def differential(self, sub, n, extra=(), tag="", timeout=3600, nontrivial=None, max_report=20, driver=None):
+    def differential(self, sub, n, extra=(), tag="", timeout=None, nontrivial=None, max_report=20, driver=None):
         """Run `avoh sub` to produce ops/impl, the driver to produce model, and
         compare line by line.  Lines whose request starts with `accept-` are
         acceptor requests (expected response `ok`): a mismatch there is a
